@@ -23,6 +23,17 @@ CLAIMED = {
  "C07": dict(text="Theorems: the registry equals {0} ∪ ids of stored zero-context xs.context frames after every history (append, import, remove, gc, reopen); append accepted iff "
              "registered / xs.context in zero context; xs.context forced to forever; rejected append changes nothing; registry equal before and after reopen.",
              design="5/C07", technique="Lean 4 invariant proof; correspondence incl. process restarts (kill and clean)"),
+
+ "C08": dict(text="Theorems: one-step retention (a stored frame stops being stored only by an explicit remove, a write under its own id, or a gc task that names it / finds it "
+             "outside the keep newest of exactly its context and topic) for every reachable state; every queued task is justified by the history (Remove ⇐ a read found that frame's "
+             "time:N elapsed; CheckHeadTTL ⇐ an accepted head:k append); head collection never touches other topics (prefix-related included) or contexts; expiry is exactly ts+N ≤ now.",
+             design="5/C08", technique="Lean 4 proof by induction over histories (gc queue provenance) + differential execution with a gated collector and a controlled clock"),
+ "C09": dict(text="Theorems: an ephemeral append changes no partition/registry/queue and is broadcast; time:N frames are returned by neither read path once elapsed and are gone after "
+             "an unlimited read + drain; a pending head:k check leaves at most k frames after drain and the survivors are exactly the k newest.",
+             design="5/C09", technique="Lean 4 proof over the gc model + differential execution (clock at expiry ±1 ms, per-task gc release)"),
+ "C20": dict(text="Theorems: importing any permutation of a reachable store's frames into an empty store yields the same stored frames (ids, order, fields) and the same usable "
+             "contexts, hence identical reads/gets/heads; import order irrelevant; re-import idempotent; import keeps id and id-position; NUL topic rejected whole; import is silent.",
+             design="5/C20", technique="Lean 4 proof (permutation invariance via sorted-list extensionality) + differential execution incl. export→permuted re-import round trips"),
 }
 
 def check_entry(pid):
